@@ -307,34 +307,55 @@ Proof.
   eapply single_frame; eauto.
 Qed.
 
-Lemma mcopy_frame st m n st' o : mcopy st m n = (st', o) -> frame_rel (m :: mt_elems st m) [] st st'.
+Lemma ddel_In d k e : In e (map snd (ddel d k)) -> In e (map snd d).
 Proof.
-  unfold mcopy. destruct (get_mt st m) as [d|] eqn:Ed; [|intros H; inversion H; apply frame_refl].
-  destruct (get_mt st n) as [dn|] eqn:Edn; [|intros H; inversion H; apply frame_refl].
+  induction d as [|[k' r] t IH]; cbn; [auto|].
+  destruct (k' =? k); cbn; [auto|]. intros [H|H]; auto.
+Qed.
+
+(** also: an element of the destination dictionary afterwards is an element it had before, or a new object *)
+Lemma mcopy_frame_elems st m n st' o :
+  mcopy st m n = (st', o) ->
+  frame_rel (m :: mt_elems st m) [] st st' /\
+  (get_mt st m <> None -> exists d', get_mt st' m = Some d' /\
+     forall e, In e (map snd d') ->
+               In e (mt_elems st m) \/ (length (st_objs st) <= e /\ e < length (st_objs st'))).
+Proof.
+  unfold mcopy. destruct (get_mt st m) as [d|] eqn:Ed; [|intros H; inversion H; split; [apply frame_refl | congruence]].
+  assert (Hm : m < length (st_objs st)) by (apply get_mt_obj in Ed; eapply get_obj_lt; exact Ed).
+  assert (Keep0 : exists d', get_mt st m = Some d' /\
+     forall e, In e (map snd d') ->
+               In e (mt_elems st m) \/ (length (st_objs st) <= e /\ e < length (st_objs st))).
+  { exists d. split; [exact Ed|]. intros e He. left. unfold mt_elems. rewrite Ed. exact He. }
+  destruct (get_mt st n) as [dn|] eqn:Edn; [|intros H; inversion H; subst; split; [apply frame_refl | intros _; exact Keep0]].
   destruct (find _ d) as [kr|].
-  { intros H. inversion H. subst. eapply frame_weaken; [eapply frame_set_mt; apply get_mt_obj; exact Ed | | apply incl_refl].
-    intros x [<-|[]]. cbn. auto. }
+  { intros H. inversion H. subst. split.
+    - eapply frame_weaken; [eapply frame_set_mt; apply get_mt_obj; exact Ed | | apply incl_refl].
+      intros x [<-|[]]. cbn. auto.
+    - intros _. exists (ddel d (fst kr)). split.
+      + unfold get_mt. rewrite get_obj_set_eq by exact Hm. reflexivity.
+      + intros e He. left. unfold mt_elems. rewrite Ed. eapply ddel_In. exact He. }
   intros H.
   set (M := m :: mt_elems st m).
   set (Inv := fun s : state => exists d1, get_mt s m = Some d1 /\
-                 forall e, In e (map snd d1) -> e < length (st_objs st) -> In e (mt_elems st m)).
-  eapply (loop_frame _ _ M Inv st) in H; [apply H | | | apply frame_refl].
-  2:{ exists d. split; [exact Ed|]. intros e He _. unfold mt_elems. rewrite Ed. exact He. }
+                 forall e, In e (map snd d1) ->
+                           In e (mt_elems st m) \/ (length (st_objs st) <= e /\ e < length (st_objs s))).
+  eapply (loop_frame _ _ M Inv st) in H; [destruct H as [HI HF]; split; [exact HF | intros _; exact HI] | | exact Keep0 | apply frame_refl].
   intros s k s' o' [d1 [Hd1 Hel]] HF Hb. unfold mcopy_body in Hb. rewrite Hd1 in Hb.
-  assert (Keep : forall s2 : state, s2 = s -> Inv s2) by (intros s2 ->; exists d1; auto).
+  assert (Keep : Inv s) by (exists d1; auto).
   destruct (get_mt s n) as [dn1|]; [|inversion Hb; subst; split; [auto|exists []; split; [apply frame_refl|intros r []]]].
   destruct (lookup k dn1) as [sr|]; [|inversion Hb; subst; split; [auto|exists []; split; [apply frame_refl|intros r []]]].
   destruct (lookup k d1) as [e|] eqn:El.
   - pose proof (copy_into_frame _ _ _ _ _ Hb) as HFc. split.
     + (* m is a MultiTensor, e a PatternedTensor or the call changed nothing *)
-      exists d1. split; [|exact Hel].
+      exists d1. split; [|intros e0 He0; destruct (Hel e0 He0) as [?|[? ?]]; [left; assumption|right; pose proof (fr_objs_len _ _ _ _ HFc); lia]].
       unfold copy_into in Hb. destruct (get_pt s e) as [p|] eqn:Ep; [|inversion Hb; subst; exact Hd1].
       assert (Hne : e <> m).
       { intros ->. unfold get_pt, get_mt in *. destruct (get_obj s m) as [[?|?]|]; discriminate. }
       unfold get_mt. rewrite (fr_objs _ _ _ _ HFc); [exact Hd1 | | intros [Hx|[]]; congruence].
       apply get_mt_obj in Hd1. eapply get_obj_lt. exact Hd1.
-    + exists [e]. split; [exact HFc|]. intros r [<-|[]] Hr. right. apply Hel; [|exact Hr].
-      eapply lookup_In. exact El.
+    + exists [e]. split; [exact HFc|]. intros r [<-|[]] Hr. right.
+      destruct (Hel e (lookup_In _ _ _ El)) as [?|[? ?]]; [assumption|lia].
   - destruct (get_pt s sr) as [q|]; [|inversion Hb; subst; split; [auto|exists []; split; [apply frame_refl|intros r []]]].
     unfold clone_pt in Hb.
     destruct (mk_fresh s (phys s q) (pt_lay q) (pt_dflt q) (pt_dt q)) as [s1 r] eqn:Em.
@@ -347,26 +368,47 @@ Proof.
       * unfold get_mt. rewrite get_obj_set_eq; [reflexivity|].
         pose proof (fr_objs_len _ _ _ _ (frame_mk_fresh s (phys s q) (pt_lay q) (pt_dflt q) (pt_dt q))) as Hl.
         rewrite Em in Hl. cbn in Hl. apply get_mt_obj in Hd1. apply get_obj_lt in Hd1. lia.
-      * intros e He Hlt. rewrite map_app in He. apply in_app_or in He. destruct He as [He|[He|[]]]; [auto|].
-        cbn in He. subst e. pose proof (fr_objs_len _ _ _ _ HF). lia.
+      * pose proof (fr_objs_len _ _ _ _ HF) as Hl0.
+        assert (Hl2 : length (st_objs (set_obj s1 m (OMT (d1 ++ [(k, r)])))) = S (length (st_objs s))).
+        { cbn. rewrite set_nth_length. pose proof (f_equal fst Em) as Hs1. cbn [fst] in Hs1. rewrite <- Hs1.
+          unfold mk_fresh, alloc, new_obj. cbn. rewrite app_length. cbn. lia. }
+        intros e He. rewrite map_app in He. apply in_app_or in He. destruct He as [He|[He|[]]].
+        -- destruct (Hel e He) as [?|[? ?]]; [left; assumption|right; lia].
+        -- cbn in He. subst e. right. lia.
     + exists [m]. split; [exact HF1|]. intros r0 [<-|[]] _. left. reflexivity.
 Qed.
 
-Lemma mclone_frame st m st' o : mclone st m = (st', o) -> frame_rel [] [] st st'.
+Lemma mcopy_frame st m n st' o : mcopy st m n = (st', o) -> frame_rel (m :: mt_elems st m) [] st st'.
+Proof. intros H. apply (mcopy_frame_elems _ _ _ _ _ H). Qed.
+
+(** the clone is a new MultiTensor all of whose elements are new objects *)
+Lemma mclone_frame_elems st m st' o :
+  mclone st m = (st', o) ->
+  frame_rel [] [] st st' /\
+  (get_mt st m <> None -> exists d', get_mt st' (length (st_objs st)) = Some d' /\
+     forall e, In e (map snd d') -> length (st_objs st) < e /\ e < length (st_objs st')).
 Proof.
-  unfold mclone, new_obj. set (st1 := mkst _ _).
+  unfold mclone. destruct (get_mt st m) as [dm|]; [|intros H; inversion H; split; [apply frame_refl | congruence]].
+  unfold new_obj. set (st1 := mkst _ _).
   destruct (mcopy st1 (length (st_objs st)) m) as [st2 o2] eqn:Ec. intros H.
   assert (Hst : st2 = st') by (destruct o2; inversion H; reflexivity). subst st2.
-  apply mcopy_frame in Ec.
+  apply mcopy_frame_elems in Ec. destruct Ec as [Ec Hel].
   assert (F1 : frame_rel [] [] st st1).
   { eapply frame_app with (nw := [OMT []]) (ex := []); cbn; [reflexivity | rewrite app_nil_r; reflexivity |].
     intros p' [Hp|[]]. discriminate. }
-  eapply frame_trans; [exact F1 | exact Ec |].
-  intros r Hr Hlt. exfalso.
-  assert (Hm : mt_elems st1 (length (st_objs st)) = []).
-  { unfold mt_elems, get_mt, get_obj, st1. cbn. rewrite nth_error_app2, Nat.sub_diag by lia. reflexivity. }
-  rewrite Hm in Hr. destruct Hr as [<-|[]]. lia.
+  assert (Hg : get_mt st1 (length (st_objs st)) = Some []).
+  { unfold get_mt, get_obj, st1. cbn. rewrite nth_error_app2, Nat.sub_diag by lia. reflexivity. }
+  assert (Hm : mt_elems st1 (length (st_objs st)) = []) by (unfold mt_elems; rewrite Hg; reflexivity).
+  split.
+  - eapply frame_trans; [exact F1 | exact Ec |].
+    intros r Hr Hlt. exfalso. rewrite Hm in Hr. destruct Hr as [<-|[]]. lia.
+  - intros _. destruct Hel as [d' [Hd' He]]; [congruence|]. exists d'. split; [exact Hd'|].
+    intros e Hin. rewrite Hm in He. destruct (He e Hin) as [[]|[H1 H2]].
+    unfold st1 in H1. cbn in H1. rewrite app_length in H1. cbn in H1. lia.
 Qed.
+
+Lemma mclone_frame st m st' o : mclone st m = (st', o) -> frame_rel [] [] st st'.
+Proof. intros H. apply (mclone_frame_elems _ _ _ _ H). Qed.
 
 Lemma add_views_frame st x p items st' o :
   get_obj st x = Some (OPT p) ->
